@@ -25,18 +25,23 @@ def sh(cmd, cwd=None, check=True):
         raise RuntimeError("%s failed:\n%s" % (cmd, r.stdout))
     return r
 
+import threading
+GITLOCK = threading.Lock()
+
 def scratch():
     d = tempfile.mkdtemp(prefix="setecmut.")
     os.rmdir(d)
     # copy of the working tree (tracked files as they are now), not just HEAD
-    sh(["git", "-C", REPO, "worktree", "add", "-q", "--detach", d, "HEAD"])
+    with GITLOCK:
+        sh(["git", "-C", REPO, "worktree", "add", "-q", "--detach", d, "HEAD"])
     diff = sh(["git", "-C", REPO, "diff", "HEAD"]).stdout
     if diff.strip():
         p = subprocess.run(["git", "-C", d, "apply"], input=diff, text=True, env=ENV)
     return d
 
 def drop(d):
-    sh(["git", "-C", REPO, "worktree", "remove", "--force", d], check=False)
+    with GITLOCK:
+        sh(["git", "-C", REPO, "worktree", "remove", "--force", d], check=False)
     shutil.rmtree(d, ignore_errors=True)
 
 def vet(d, prop):
